@@ -25,6 +25,10 @@ typedef struct istream_xfrm_t {
 	sqfs_istream_t *wrapped;
 	xfrm_stream_t *xfrm;
 
+	/* the decompressor has consumed data of a stream it has not
+	   seen the end of yet */
+	bool in_stream;
+
 	size_t buffer_offset;
 	size_t buffer_used;
 	sqfs_u8 uncompressed[BUFSZ];
@@ -66,6 +70,19 @@ static int precache(sqfs_istream_t *base)
 
 		if (ret == XFRM_STREAM_ERROR)
 			return SQFS_ERROR_COMPRESSOR;
+
+		if (ret == XFRM_STREAM_END) {
+			xfrm->in_stream = false;
+		} else if (in_off > 0) {
+			xfrm->in_stream = true;
+		}
+
+		/* the input ends in the middle of a compressed stream and
+		   the decompressor has nothing left to deliver */
+		if (mode == XFRM_STREAM_FLUSH_FULL && xfrm->in_stream &&
+		    out_off == xfrm->buffer_used) {
+			return SQFS_ERROR_CORRUPTED;
+		}
 
 		xfrm->buffer_used = out_off;
 		xfrm->wrapped->advance_buffer(xfrm->wrapped, in_off);
